@@ -23,12 +23,15 @@ let c18_parse body =
         L [Sym "gnorm"; show_strs (git_norm a)]; L [Sym "gcmd"; show_opt (git_command a)]])
   | _ -> failwith "c18-parse: bad case"
 
-(* in: CPS   out: none | (some (TOK...)) *)
+(* in: CPS   out: none | (some (TOK...))   then model-only: (gsplit none|(some (WORD...))) (edge b) (shell b) *)
 let c18_alias_tokens body =
   match parse_many body with
-  | [v] -> (match parse_alias_tokens (str_of v) with
-      | None -> "none"
-      | Some ts -> show (L [Sym "some"; show_strs ts]))
+  | [v] ->
+      let v = str_of v in
+      let so = function None -> Sym "none" | Some ts -> L [Sym "some"; show_strs ts] in
+      String.concat " " (List.map show [
+        so (parse_alias_tokens v); L [Sym "gsplit"; so (git_split v)];
+        L [Sym "edge"; bool_x (alias_edge v)]; L [Sym "shell"; bool_x (is_shell_alias v)]])
   | _ -> failwith "c18-alias-tokens: bad case"
 
 (* in: [DIR] ((NAME VALUE)...) ARGV   out: none | fuel | parsed record *)
